@@ -6,8 +6,8 @@ Encoding of the parameters (see zz_verif_c11.go):
          lists of <= 3 distinct earlier flavors (shortest first, lexicographic)
   masks  base 16, digit i = daemons of flavor i (1 primary, 2 :before, 4 :after, 8 whopper)
   msg    0 custom message, 1 :init (vanilla-flavor's primary takes part)
-  ord    -1 every admissible order of the forms (vrt.Choice), k >= 0 pseudo-random order number k
-         (odd k: drawn among the orders outside the insertMethod finding regions)
+  ord    -1 every admissible order of the forms (vrt.Choice); k >= 0: four pseudo-random orders (numbers 4k..4k+3,
+         the odd ones drawn among the orders outside the insertMethod finding regions)
 """
 import itertools
 import json
@@ -66,76 +66,74 @@ diamond4 = shape_of([[], [0], [0], [1, 2]])
 # 3 flavors, 3 methods, every order
 for k, sh in enumerate(all_shapes(3)):
     send_q.append([3, sh, masks_of([(2, 2, 1), (4, 1, 2)][k % 2]), 0, -1])
-# 3 flavors, <= 4 methods, sampled orders
-q3 = [(4, 4, 4), (1, 1, 1), (9, 8, 0), (3, 4, 8), (6, 0, 6), (8, 8, 8), (2, 1, 12)]
+# 3 flavors, <= 4 methods, 4 sampled orders each
+q3 = [(4, 4, 4), (9, 8, 0), (3, 4, 8), (8, 8, 8)]
 for sh in all_shapes(3):
     for ms in q3:
-        for k in range(2):
-            send_q.append([3, sh, masks_of(ms), 0, k])
+        send_q.append([3, sh, masks_of(ms), 0, 0])
 # :init (vanilla-flavor's primary is part of the table), every order
 for sh in conn3:
     for ms in [(2, 2, 0), (1, 0, 2)]:
         send_q.append([3, sh, masks_of(ms), 1, -1])
 for sh in all_shapes(2):
-    for ms in [(3, 4), (9, 8), (7, 0), (0, 11)]:
+    for ms in [(3, 4), (9, 8)]:
         send_q.append([2, sh, masks_of(ms), 0, -1])
         send_q.append([2, sh, masks_of(ms), 1, -1])
 # sampled orders of 4-flavor programs (the aliasing append needs 4 flavors)
 for sh in (wide4, chain4, diamond4):
     for ms in [(2, 2, 2, 1), (4, 1, 2, 8)]:
-        for k in range(4):
-            send_q.append([4, sh, masks_of(ms), 0, k])
+        send_q.append([4, sh, masks_of(ms), 0, 0])
 
 send_t += send_q
+for sh in all_shapes(2):
+    for ms in [(7, 0), (0, 11)]:
+        send_t.append([2, sh, masks_of(ms), 0, -1])
+        send_t.append([2, sh, masks_of(ms), 1, -1])
 for k, sh in enumerate(all_shapes(3)):
     send_t.append([3, sh, masks_of([(2, 2, 1), (4, 1, 2)][(k + 1) % 2]), 0, -1])
 # 3 flavors: single-daemon assignments, every order
 for sh in conn3:
-    for ms in rnd.sample(list(itertools.product((1, 2, 4, 8), repeat=3)), 32):
+    for ms in rnd.sample(list(itertools.product((1, 2, 4, 8), repeat=3)), 24):
         c = [3, sh, masks_of(ms), 0, -1]
         if c not in send_t:
             send_t.append(c)
 # 3 flavors, 4 methods, every order
 for sh in conn3:
-    for ms in [(3, 4, 8), (2, 5, 2), (9, 2, 1)]:
+    for ms in [(3, 4, 8), (2, 5, 2)]:
         send_t.append([3, sh, masks_of(ms), 0, -1])
     for ms in [(1, 1, 1), (8, 2, 1), (4, 4, 1)]:
         send_t.append([3, sh, masks_of(ms), 1, -1])
-# 4 flavors: every shape (<= 3 components each), sampled orders
+# 4 flavors: every shape (<= 3 components each), 2 daemon assignments x 4 sampled orders, 1 x 4 for :init
 pool4 = [(2, 2, 2, 1), (4, 1, 2, 8), (1, 4, 4, 4), (8, 8, 1, 2), (3, 0, 6, 8), (2, 4, 8, 1), (1, 1, 2, 2), (9, 2, 4, 0)]
 for sh in all_shapes(4):
-    for ms in rnd.sample(pool4, 3):
-        for k in range(4):
-            send_t.append([4, sh, masks_of(ms), 0, k])
-    ms = rnd.choice(pool4)
-    send_t.append([4, sh, masks_of(ms), 1, rnd.randrange(100)])
+    for ms in rnd.sample(pool4, 2):
+        send_t.append([4, sh, masks_of(ms), 0, rnd.randrange(50)])
+    if sh % 2 == 0:
+        send_t.append([4, sh, masks_of(rnd.choice(pool4)), 1, rnd.randrange(50)])
 # 4 flavors: every order for three typical shapes, 3 methods
 for sh, ms in ((wide4, (2, 2, 2, 0)), (chain4, (4, 1, 2, 0)), (diamond4, (1, 2, 0, 4))):
     send_t.append([4, sh, masks_of(ms), 0, -1])
-# 5 flavors: sampled shapes, sampled orders
+# 5 flavors: sampled shapes, 4 sampled orders
 sh5 = all_shapes(5)
 pool5 = [(2, 2, 2, 2, 1), (4, 1, 2, 8, 2), (1, 4, 4, 4, 4), (8, 8, 1, 2, 4), (3, 0, 6, 8, 1), (2, 4, 8, 1, 0)]
-for sh in rnd.sample(sh5, 300):
-    ms = rnd.choice(pool5)
-    for k in range(3):
-        send_t.append([5, sh, masks_of(ms), 0, k])
+for sh in rnd.sample(sh5, 200):
+    send_t.append([5, sh, masks_of(rnd.choice(pool5)), 0, rnd.randrange(50)])
 
 # ---------------- C11.bound ----------------
 bound_q, bound_t = [], []
-for sh in conn3:
-    for ms in [(6, 6, 1), (2, 1, 2), (4, 0, 5), (8, 1, 2), (9, 8, 8)]:
-        for k in range(2):
-            bound_q.append([3, sh, masks_of(ms), k])
+for k, sh in enumerate(conn3):
+    for ms in [(6, 6, 1), (4, 0, 5), (8, 1, 2), (9, 8, 8)][k % 2::2]:
+        bound_q.append([3, sh, masks_of(ms), 0])
 for sh in all_shapes(2):
     for ms in [(6, 4), (3, 2), (9, 4), (1, 4)]:
         bound_q.append([2, sh, masks_of(ms), -1])
 bound_t += bound_q
 for sh in all_shapes(3):
-    for ms in itertools.product((1, 2, 4, 8), repeat=3):
-        bound_t.append([3, sh, masks_of(ms), 1])
+    for ms in rnd.sample(list(itertools.product((1, 2, 4, 8), repeat=3)), 16):
+        bound_t.append([3, sh, masks_of(ms), 0])
 for sh in all_shapes(4):
-    for ms in rnd.sample(pool4, 2):
-        bound_t.append([4, sh, masks_of(ms), 2 * rnd.randrange(50) + 1])
+    if sh % 2 == 1:
+        bound_t.append([4, sh, masks_of(rnd.choice(pool4)), rnd.randrange(50)])
 
 # ---------------- C11.vars ----------------
 vars_q, vars_t = [], []
@@ -152,25 +150,24 @@ def rand_decl_opts(n):
 
 
 cur3 = [((1, 1, 1), (15, 0, 0)), ((1, 0, 1), (1, 0, 2)), ((1, 1, 0), (8, 8, 16)), ((2, 1, 1), (1, 4, 16)),
-        ((1, 2, 0), (7, 0, 0)), ((0, 0, 1), (0, 0, 31)), ((1, 1, 1), (4, 20, 16)), ((0, 1, 0), (0, 3, 8))]
+        ((1, 2, 0), (7, 0, 0)), ((1, 1, 1), (4, 20, 16)), ((0, 1, 0), (0, 3, 8))]
 for sh in all_shapes(3):
     for vk, op in cur3:
         vars_q.append([3, sh, sum(v * 3 ** i for i, v in enumerate(vk)), sum(o * 32 ** i for i, o in enumerate(op)), -1])
-    for _ in range(4):
-        d, o = rand_decl_opts(3)
-        vars_q.append([3, sh, d, o, -1])
+    d, o = rand_decl_opts(3)
+    vars_q.append([3, sh, d, o, -1])
 vars_t += vars_q
 for sh in all_shapes(3):
-    for _ in range(50):
+    for _ in range(30):
         d, o = rand_decl_opts(3)
         vars_t.append([3, sh, d, o, -1])
 for sh in all_shapes(4):
-    for _ in range(3):
+    for _ in range(2):
         d, o = rand_decl_opts(4)
         vars_t.append([4, sh, d, o, -1])
-for sh in rnd.sample(sh5, 200):
+for sh in rnd.sample(sh5, 100):
     d, o = rand_decl_opts(5)
-    vars_t.append([5, sh, d, o, rnd.randrange(100)])
+    vars_t.append([5, sh, d, o, rnd.randrange(50)])
 
 common = {"property": "C11", "pkg": "pkg/flavors", "max_depth": 400, "max_steps": 400000000, "solver_timeout_ms": 10000}
 vals = ("Symbolic: the default of every flavor's own instance variable, the constant added by every primary and by "
@@ -178,9 +175,9 @@ vals = ("Symbolic: the default of every flavor's own instance variable, the cons
         "fixnums with |v| < 2^20 (no overflow of the sums). Concrete per case: the DAG (shape), which daemons each flavor "
         "defines (masks), the message. The ORDER of the defflavor/defmethod/defwhopper forms is chosen by the engine "
         "(vrt.Choice over the enabled forms at every step: every order that respects components-before-users and "
-        "flavor-before-its-methods) when ord = -1, or is pseudo-random order number ord (mixed with VERIF_SEED) when ord >= 0 "
-        "(odd ord: rejection-sampled among the orders outside the two insertMethod regions, so that sampled cases of larger "
-        "programs are not all cut by the carve-outs). ")
+        "flavor-before-its-methods) when ord = -1; when ord >= 0 the case runs four pseudo-random orders (numbers 4*ord..4*ord+3, "
+        "mixed with VERIF_SEED; the odd ones are rejection-sampled among the orders outside the two insertMethod regions, so "
+        "that sampled cases of larger programs are not all cut by the carve-outs). ")
 regions = ("Known-finding regions are delimited with a 30-line replica of insertMethod's placement walk applied to lists of "
            "flavor indexes (zzC11Replica; used for the carve predicates only, the oracle is the component order computed from "
            "the written DAG): C11-insert-alias = some late insertion lands inside a list; C11-insert-position = some final "
@@ -191,10 +188,13 @@ specs = [
     dict(common, id="C11.send", entry="VerifC11Send", cases={"quick": send_q, "thorough": send_t}, reach=["sent"],
          carves=["C11-insert-alias", "C11-insert-position", "C11-whopper-skip"],
          note="Real defflavor/defmethod/defwhopper/continue-whopper/make-instance/send evaluated through the registry for a DAG "
-              "of n flavors (quick: all 10 shapes of 3 flavors x 8+3 daemon assignments of <= 4 methods x every order, all "
-              "2-flavor shapes, 3 shapes of 4 flavors with sampled orders; thorough adds every single-daemon assignment of 3 "
-              "flavors x every order, all 160 shapes of 4 flavors (<= 3 components each) x sampled orders, three 4-flavor "
-              "shapes x every order, 300 sampled 5-flavor shapes x sampled orders). Asserted for an instance of EVERY flavor: "
+              "of n flavors. Quick: the 10 shapes of 3 flavors x (one 3-method assignment x EVERY order + 4 assignments of <= 4 "
+              "methods x 4 sampled orders), the 7 connected 3-flavor shapes x 2 assignments on :init x every order, both 2-flavor "
+              "shapes x 2 assignments x 2 messages x every order, 3 shapes of 4 flavors (wide, chain, diamond) x 2 assignments x 4 "
+              "sampled orders. Thorough adds: 7 connected 3-flavor shapes x (24 single-daemon assignments + 2 four-method "
+              "assignments + 3 :init assignments) x every order, all 160 shapes of 4 flavors (<= 3 components each) x 2 "
+              "assignments x 4 sampled orders (+ :init for half of them), three 4-flavor shapes x every order, 200 sampled "
+              "5-flavor shapes x 4 sampled orders. Asserted for an instance of EVERY flavor: "
               "the method table (From list, daemons per entry) and Flavor.Precedence equal the component order; the trace of "
               "(send inst msg nil) = whoppers outermost first, :before in order, first primary, :after reversed, whopper exits; "
               "the returned value; (send inst :v<i>) for every inherited variable. msg=1 uses :init, where vanilla-flavor's "
